@@ -171,6 +171,7 @@ class Executor(object):
         self.base_facts = V.ground_facts() + C.name_facts()
         self.loop_ordinals = {}
         self.dead_paths = []
+        self.isinst_cands = {}
         for n in ast.walk(ast.Module(body=env.fn.body, type_ignores=[])):
             if isinstance(n, (ast.For, ast.While)):
                 self.loop_ordinals[id(n)] = len(self.loop_ordinals)
@@ -434,6 +435,14 @@ class Executor(object):
         if isinstance(v, (BoundMeth, Star)):
             raise Unsupported("attribute of bound method")
         pycls = st.typeof(v)
+        if pycls is None and z3.is_expr(v):
+            # refinement by an earlier isinstance() test on the same term
+            for k in self.isinst_cands.get(v.get_id(), ()):
+                cond = z3.And(V.is_obj(v), C.subclass(C.cls_of(Val.ref(v)), k))
+                if not self.feasible(st, z3.Not(cond)):
+                    st.settype(v, k)
+                    pycls = k
+                    break
         if pycls is not None:
             return self.obj_getattr(st, v, pycls, attr)
         # a Val of unknown static class: methods of builtin containers / strings
@@ -720,6 +729,17 @@ class Executor(object):
         raise Unsupported("lambda")
 
     def ev_Call(self, st, e):
+        if isinstance(e.func, ast.Attribute) and e.func.attr == "append" and isinstance(e.func.value, ast.Name) \
+                and isinstance(st.locals.get(e.func.value.id), Meta) and isinstance(st.locals[e.func.value.id].py, list) \
+                and len(e.args) == 1 and not e.keywords:
+            # a python-level list of types (e.g. valid_params): functional update of the local
+            def go(s, v):
+                if not isinstance(v, Meta):
+                    raise Unsupported("append of a symbolic value to a meta list")
+                s = s.copy()
+                s.locals[e.func.value.id] = Meta(list(s.locals[e.func.value.id].py) + [v.py])
+                return [(s, ("val", V.VNone))]
+            return self.bind(self.eval(st, e.args[0]), go)
         return self.bind(self.eval(st, e.func), lambda s, f: self.eval_call(s, f, e))
 
     def eval_call(self, st, f, e):
@@ -774,8 +794,8 @@ class Executor(object):
         if h is not None:
             return h(self, st, args, kwargs, text)
         init = getattr(pycls, "__init__", None)
-        if issubclass(pycls, BaseException) and (init is BaseException.__init__ or init is Exception.__init__
-                                                  or getattr(init, "__objclass__", None) in (BaseException, Exception, OSError)):
+        import inspect as _insp
+        if issubclass(pycls, BaseException) and not _insp.isfunction(init):
             s = st.copy()
             e = self.make_exc(s, pycls, V.mk_tuple([self.lift(a) for a in args]))
             return [(s, ("val", e))]
